@@ -806,7 +806,13 @@ func c14NTSOne(r *ev.Run, id string, rng *rand.Rand) {
 			ulen = 32 + rng.IntN(33)
 		}
 		uid = c14RandBytes(rng, ulen)
-		room := nts.MaxPacketLen - 48 - 4 - c14Pad4(ulen) - 40
+		ptLen := 0
+		if rng.IntN(3) == 0 {
+			// encrypted extension fields of any length: the ciphertext, and with it the authenticator's
+			// padding, takes every residue modulo four
+			ptLen = 1 + rng.IntN(40)
+		}
+		room := nts.MaxPacketLen - 48 - 4 - c14Pad4(ulen) - 40 - c14Pad4(ptLen)
 		clen := []int{124, 4, 8, 64, 100, 128, 200}[rng.IntN(7)]
 		if rng.IntN(3) == 0 {
 			clen = 1 + rng.IntN(200)
@@ -830,6 +836,9 @@ func c14NTSOne(r *ev.Run, id string, rng *rand.Rand) {
 			pkt.CookiePlaceholders = append(pkt.CookiePlaceholders, nts.CookiePlaceholder{Cookie: make([]byte, clen)})
 		}
 		pkt.Auth.Key = key
+		if ptLen > 0 {
+			pkt.Auth.PlainText = c14RandBytes(rng, ptLen)
+		}
 		aligned = ulen%4 == 0 && (clen%4 == 0 || nc == 0)
 		shape = "hand-built"
 		if nPlace > 0 {
